@@ -139,7 +139,73 @@ def build_cases(seed, tier):
                             'observed': observed,
                             'result': 'RESULT' if r is result else
                             '?' + repr(r)[:40]})
+    cases += positional_cases(rng, loop)
     loop.close()
+    return cases
+
+
+def positional_cases(rng, loop):
+    """Optional arguments given POSITIONALLY: `helper(*a)` must have the
+    effect of `target(*a)` (the statement: "exactly the effect of the
+    same-named method"), so the meaning of position i is the target's i-th
+    parameter.  Positions are tested up to the first helper parameter the
+    target does not have (ClientNamespace.send's vestigial `room`)."""
+    cases = []
+    for cname, ns_cls, target_cls, helpers, setter, is_async in CLASSES:
+        for m in helpers:
+            hreq, hopt = params(getattr(ns_cls, m))
+            treq, topt = params(getattr(target_cls, m))
+            torder = treq + topt
+            usable = []
+            for n in hopt:
+                if n not in torder:
+                    break
+                usable.append(n)
+            for k in range(1, len(usable) + 1):
+                registered = '/reg%d' % rng.randrange(1000)
+                log = []
+                result = Result()
+                stub = make_stub(target_cls, helpers, is_async, log, result)
+                ns = ns_cls(registered)
+                getattr(ns, setter)(stub)
+                horder = hreq + usable[:k]
+                if len(horder) > len(torder):
+                    break
+                vals = ['/explicit%d' % rng.randrange(1000)
+                        if torder[i] == 'namespace'
+                        else 'val_%d_%d' % (i, rng.randrange(10 ** 6))
+                        for i in range(len(horder))]
+                toks = ['V:%d' % i for i in range(len(horder))]
+                try:
+                    r = getattr(ns, m)(*vals)
+                    if inspect.isawaitable(r):
+                        r = loop.run_until_complete(r)
+                except Exception as e:
+                    r = 'EXC:' + type(e).__name__
+                calls = [c for c in log if c[0] == m]
+                observed = {}
+                if calls:
+                    for n, v in calls[0][1].items():
+                        hit = [t for t, x in zip(toks, vals)
+                               if type(x) is type(v) and x == v]
+                        if hit:
+                            observed[n] = hit[0]
+                        elif n == 'namespace' and v == registered:
+                            observed[n] = 'REGISTERED'
+                        else:
+                            observed[n] = 'default'
+                other = [c for c in log if c[0] != m]
+                cases.append({
+                    'cls': cname, 'method': m, 'mode': 'allpositional',
+                    'falsy': False, 'optional': hopt,
+                    'target_params': torder,
+                    # what target(*vals) would bind
+                    'given': {torder[i]: toks[i] for i in range(len(vals))},
+                    'registered': 'REGISTERED',
+                    'calls': len(calls) + 100 * len(other),
+                    'observed': observed,
+                    'result': 'RESULT' if r is result else
+                    '?' + repr(r)[:40]})
     return cases
 
 
